@@ -1573,14 +1573,14 @@ func (a *Agent) TaskPrepare(Command int, Info any, Message *map[string]string, C
 			break
 
 		case DEMON_PIVOT_SMB_DISCONNECT:
-			var AgentID, err = strconv.ParseInt(Param, 16, 32)
+			var AgentID, err = strconv.ParseUint(Param, 16, 32)
 			if err != nil {
 				return nil, err
 			}
 
 			job.Data = []interface{}{
 				PivotCommand,
-				AgentID,
+				uint32(AgentID),
 			}
 			break
 
